@@ -43,3 +43,9 @@ Proof. split; reflexivity. Qed.
 Lemma roundtrip_writes_only_bookkeeping :
   roundtrip_assigns = [bs "RawRequest"; bs "StartTime"; bs "trace"].
 Proof. vm_compute. reflexivity. Qed.
+
+(* the caller's interval function, hooks and conditions are each called from ONE place (the loop of
+   Request.do) - not, say, once more from a log line; and the client's headers are merged on the
+   first attempt of an execution only (prep_header in Model/Retry.v) *)
+Lemma callbacks_called_from_the_loop_only : callback_call_sites = [1; 1; 1]%nat /\ header_merge_once = true.
+Proof. split; reflexivity. Qed.
